@@ -200,7 +200,15 @@ def memo_key(ctx):
     rs = [n for n in u.own_nodes() if isinstance(n, ast.Raise)]
     ok = len(rs) == 1 and st and cfg.find_path(cfg.node_of(rs[0]), {cfg.node_of(st[0])}) is None
     g = [a for a in ancestors(rs[0]) if isinstance(a, ast.If)] if rs else []
-    ctx.ob(ok and bool(g) and matches(g[0].test, '%s is False and raise_exc' % rv), u, 'an unsupported (type, op) raises instead of being memoised')
+    okg = False
+    if ok and g:
+        b = match(g[0].test, '$v is False and raise_exc')
+        if b is not None:
+            vname = b['v'] if isinstance(b['v'], str) else getattr(b['v'], 'id', None)
+            ds = cfg.reaching_defs(cfg.node_of(rs[0]), vname) if vname else []
+            okg = vname == rv or (bool(ds) and all(isinstance(d, ast.Subscript) and isinstance(d.value, ast.Attribute)
+                                                  and d.value.attr == '_type_cache' for _, d in ds))
+    ctx.ob(okg, u, 'an unsupported (type, op) raises UnregisteredTarget when the caller asked for it (the answer tested is the memo entry)')
     ctx.floor(6)
 
 
